@@ -164,6 +164,32 @@ func (p *Prog) memSame1(a, b ssa.Value) bool {
 			}
 		}
 	}
+	// case 3b: b is loaded inside a literal remembered in a local function
+	// variable and called later in the creating function (selectedAndCalled);
+	// a is a load of the same path before the literal is made: equal if
+	// nothing modifies F between a and each call, nor in the literal before b
+	if la, fa, ok := loadOfField(a); ok && la.Parent() != fn {
+		if mk := MakeClosureOf(fn); mk != nil && mk.Parent() == la.Parent() && samePath(fa, fb) && InstrDominates(la, mk) {
+			if ph := selectedAndCalled(mk); ph != nil {
+				outer := la.Parent()
+				cleanIn := func(g *ssa.Function, from, to ssa.Instruction) bool {
+					hit, _ := Search(g, from, nil, func(in ssa.Instruction) bool { return in == to }, func(in ssa.Instruction) bool {
+						return in != to && p.MayModifyField(in, fr)
+					})
+					return hit == nil
+				}
+				okAll := cleanIn(fn, nil, lb)
+				for _, r := range *ph.Referrers() {
+					if call, isCall := r.(*ssa.Call); isCall && !cleanIn(outer, la, call) {
+						okAll = false
+					}
+				}
+				if okAll {
+					return true
+				}
+			}
+		}
+	}
 	// case 2: a was stored to the same path before the load
 	refs := a.Referrers()
 	if refs == nil {
